@@ -187,6 +187,22 @@ Theorem C16_nlri_bits : forall p i, wf_prefix p -> i < p_len p ->
   bit_at (snd (intended_nlri p)) i = bit_at (p_ip p) i.
 Proof. exact nlri_bits_spec. Qed.
 
+(* capability precedence, spelled out: whatever the 2-octet "My AS" field says --
+   AS_TRANS (23456), the number the reader expects, or anything else -- the AS
+   number understood from an OPEN is the one of its last 4-octet capability.
+   With C16_read_open_correct this is what readOpen reports (seeded C17-11: an
+   override only when the field is AS_TRANS lets a peer with another AS in). *)
+Theorem C16_capability_as_wins : forall asn16 hold id cs1 cs2 a,
+  a < 4294967296 -> (forall c, In c cs2 -> cap_as4 c = None) ->
+  r_asn (understood {| o_ver := 4; o_asn := asn16; o_hold := hold; o_id := id;
+                       o_params := [PCaps (cs1 ++ {| c_code := 65; c_val := u32 a |} :: cs2)] |}) = a.
+Proof. exact understood_asn_last_as4. Qed.
+
+Example C16_field_expected_capability_other :
+  fst (read_open (marker ++ [0; 43; 1; 4; 253; 231; 0; 90; 10; 0; 0; 2; 14; 2; 12; 1; 4; 0; 1; 0; 1; 65; 4; 0; 1; 17; 112]))
+  = ROk {| r_asn := 70000; r_hold := 90; r_mp4 := true; r_mp6 := false; r_fbasn := true |}.
+Proof. vm_compute. reflexivity. Qed.
+
 (* fuel adequacy: the fuelled transcriptions of readOptions / readCapabilities
    give the same answer for every fuel above the number of octets left on the
    stream (each continuing iteration consumes >= 2 octets), so their "out of
